@@ -265,3 +265,19 @@ def by_dimension(atoms=None):
     for p, s in (atoms or linear_atoms()):
         groups.setdefault(atom_dim(s), []).append((p, s))
     return groups
+
+
+def factor_of_expression_text(text):
+    """Factor of a parenthesis-free expression 'kg*m/s2' (left to right)."""
+    import re
+    f = 1.0
+    sign = 1
+    for tok in re.split(r"([*/])", text):
+        if tok == "*":
+            sign = 1
+        elif tok == "/":
+            sign = -1
+        else:
+            x = factor_of_expression(tok)
+            f = f * x if sign == 1 else f / x
+    return f
